@@ -181,6 +181,61 @@ def eval_nons(args):
     return dict(doc=doc, ver=ver, cases=n, bad=bad[:3])
 
 
+MANUAL = '''<xs:schema xmlns:xs="http://www.w3.org/2001/XMLSchema"><xs:element name="manual"><xs:complexType><xs:sequence>
+ <xs:element name="chapter" maxOccurs="unbounded"><xs:complexType><xs:sequence>
+   <xs:element name="p" minOccurs="0" maxOccurs="unbounded"><xs:complexType><xs:simpleContent><xs:extension base="xs:int"><xs:attribute name="id" type="xs:ID"/><xs:attribute name="see" type="xs:IDREF"/></xs:extension></xs:simpleContent></xs:complexType></xs:element>
+  </xs:sequence><xs:attribute name="id" type="xs:ID"/><xs:attribute name="next" type="xs:IDREF"/></xs:complexType></xs:element></xs:sequence></xs:complexType></xs:element></xs:schema>'''
+
+
+def gen_manual(rng, dangling):
+    ids = []; chapters = []
+    for c in range(rng.randrange(2, 4)):
+        ids.append(f'c{c}'); chapters.append((f'c{c}', [f'p{c}{k}' for k in range(rng.randrange(0, 3))])); ids += chapters[-1][1]
+    ref = lambda: 'nowhere' if dangling and rng.random() < .3 else rng.choice(ids)
+    out = '<manual>'
+    for cid, ps in chapters:
+        out += f'<chapter id="{cid}" next="{ref()}">' + ''.join(f'<p id="{p_}"' + (f' see="{ref()}"' if rng.random() < .6 else '') + f'>{rng.choice(["1", "x"])}</p>' for p_ in ps) + '</chapter>'
+    return out + '</manual>'
+
+
+def eval_refs(args):
+    """xs:ID / xs:IDREF across the parts of a document: a part that refers to an ID outside it (or below the depth limit) has the errors of that part in the whole document - a
+    reference that the whole document resolves is not an error of the part"""
+    ver, doc, dangling = args
+    import xmlschema
+    s = _S.get((ver, 'man')) or _S.setdefault((ver, 'man'), _cls(ver)(MANUAL))
+    res = xmlschema.XMLResource(doc); root = res.root; parent = {c: p for p in root.iter() for c in p}
+    depth = {root: 0}
+    for e in root.iter():
+        for c in e: depth[c] = depth[e] + 1
+    bad = []; n = 0
+    def path_of(e):
+        steps = []; x = e
+        while x is not root:
+            p = parent[x]; steps.append(f'{x.tag}[{[c for c in p if c.tag == x.tag].index(x) + 1}]'); x = p
+        return '/manual/' + '/'.join(reversed(steps)) if steps else '/manual'
+    try:
+        full = list(s.iter_errors(res))
+        for e in root.iter():
+            if e is root: continue
+            n += 1; p = path_of(e); sub = set(e.iter())
+            want = sorted(x.reason for x in full if x.elem in sub)
+            perrs = sorted(x.reason for x in s.iter_errors(res, path=p))
+            if perrs != want: bad.append(('partial errors', p, perrs[:2], want[:2]))
+            derrs = sorted(x.reason for x in s.decode(res, path=p, validation='lax')[1])
+            if derrs != want: bad.append(('partial decode errors', p, derrs[:2], want[:2]))
+        if not dangling:
+            for md in (1, 2, 3):
+                n += 1
+                want = sorted(x.reason for x in full if depth[x.elem] < md)
+                got = sorted(x.reason for x in s.iter_errors(res, max_depth=md))
+                if got != want: bad.append(('max_depth errors', md, got[:2], want[:2]))
+                got = sorted(x.reason for x in s.decode(res, max_depth=md, validation='lax')[1])
+                if got != want: bad.append(('max_depth decode errors', md, got[:2], want[:2]))
+    except Exception as e: bad.append(('exception', f'{type(e).__name__}: {e}'))
+    return dict(doc=doc, ver=ver, dangling=dangling, cases=n, bad=bad[:3])
+
+
 def run(tier, seed, open_findings):
     rng = random.Random(seed); n = 4000 if tier == 'thorough' else 60
     docs = [gen(rng) for _ in range(n)]
@@ -205,11 +260,18 @@ def run(tier, seed, open_findings):
     if nk2 and K2 not in open_findings:
         fails += [dict(case=dict(doc=r['doc'], ver=r['ver']), observed=['partial data lacks the @xmlns entries of the selected element', r['known2'][0]], required='partial = restriction of the whole') for r in res if r['known2']]
     kn = {k: v for k, v in ((K, nk), (K2, nk2)) if v and k in open_findings}
-    return [result('C20.paths_and_partial_validation', f'{len(docs)} generated documents x every element x (find, positional partial errors, max_depth 1-2) x 2 classes', cases, fails, known=kn,
+    rjobs = [(ver, gen_manual(rng, dg), dg) for _ in range(n // 2) for dg in (False, True) for ver in ('1.0', '1.1')]
+    rres = pmap(eval_refs, rjobs)
+    refs = result('C20.references_across_parts', f'{len(rjobs)} generated documents with xs:ID / xs:IDREF across chapters (half of them with dangling references) x every element path (errors, lax decode) and max_depth 1-3',
+                  sum(r['cases'] for r in rres), [dict(case=dict(refs=True, doc=r['doc'], ver=r['ver'], dangling=r['dangling']), observed=list(b), required='the errors of the part in the whole document') for r in rres for b in r['bad']],
+                  samples=[dict(doc=rjobs[0][1][:200])])
+    return [refs, result('C20.paths_and_partial_validation', f'{len(docs)} generated documents x every element x (find, positional partial errors, max_depth 1-2) x 2 classes', cases, fails, known=kn,
                    samples=[dict(doc=docs[0][:160])], distinct=cases)]
 
 
 def replay(check_name, case):
+    if case.get('refs'):
+        r = eval_refs((case['ver'], case['doc'], case['dangling'])); return dict(ok=not r['bad'], observed=r['bad'], required='the errors of the part in the whole document')
     if case.get('nons'):
         r = eval_nons((case['ver'], case['doc'])); return dict(ok=not r['bad'], observed=r['bad'], required='find = governing declaration; partial = restriction')
     r = eval_doc((case['ver'], case['doc']))
